@@ -416,7 +416,7 @@ class Gen:
         for k in range(nst):
             if force and k == 0:
                 self.forced_statement(P, force)
-                if force.startswith("rt:"):
+                if force.startswith("rt:") or force == "a/=2":
                     break
                 continue
             sh = rng.choice([("vec", 2), ("vec", 3), ("vec", 3), ("mat", 2, 2), ("mat", 2, 3), ("mat", 3, 3),
@@ -511,6 +511,19 @@ class Gen:
             P.operands += [v1, v2]
             P.kinds |= {"view:row", "view:col"}
             P.stmts.append(("%s = %s + 2 * %s;" % (a1, a1, a2), v1, "=", ("add", ("leaf", v1), ("smul", ("c", Fraction(2)), ("leaf", v2)))))
+        elif what == "a/=2":
+            # docs/web/tensors.md: "divide tensor a by 2: a/=2;" (integer literal), on an object and through a view
+            a = self.owned(P, ("st", rng.randint(1, 3)))
+            w = self.owned(P, ("vec", 5))
+            P.operands += [a, w]
+            a1 = P.fresh("a")
+            P.decls.append("auto %s = map<tvector<3, Sym>, 1>(%s);" % (a1, w.cxx))
+            v1 = Operand(a1, ("vec", 3), [(w.storage, 1 + k) for k in range(3)], True, "view:map_tvector")
+            P.operands.append(v1)
+            P.kinds.add("view:map_tvector")
+            k = rng.choice([2, 3, 4])
+            P.stmts.append(("%s /= 2;" % a.cxx, a, "/=", ("c", Fraction(2))))
+            P.stmts.append(("%s /= %d;" % (a1, k), v1, "/=", ("c", Fraction(k))))
         elif what.startswith("rt:"):
             self.runtime_statement(P, what[3:])
         else:
@@ -564,7 +577,7 @@ class Gen:
 
 
 FORCED = ["a=a+b", "a+=2*a", "s=deviator(s)", "v=m*v", "v=v*m", "m=m*n", "t=transpose(t)", "view=f(storage)",
-          "shifted-overlap", "row=row+col", "rt:vector", "rt:matrix", "rt:runtime_array", "rt:fsarray"]
+          "shifted-overlap", "row=row+col", "a/=2", "rt:vector", "rt:matrix", "rt:runtime_array", "rt:fsarray"]
 
 
 # ------------------------------------------------------------------ eager semantics
@@ -753,6 +766,6 @@ def lean_theorem(P, state, gen_ns):
     ins = input_names(P)
     outs = output_cells(P)
     exp = ",\n     ".join(lean_of(state[c]) for c in outs)
-    return ("theorem %s {K : Type} [Field K] (c c3 : K) (fn : Fns K) (%s : K) :\n"
+    return ("theorem %s {K : Type} [Field K] [CharZero K] (c c3 : K) (fn : Fns K) (%s : K) :\n"
             "    %s_all c c3 fn %s =\n    [%s] := by\n  c17_eager\n\n"
             % (P.name, " ".join(ins), P.name, " ".join(ins), exp))
